@@ -153,7 +153,8 @@ PROPS = {
                  " FindIP as translated from the source on every run (each candidate: context check, clock, Lookup, Valid, probe callback) equals the model's findIP/findLoop (C11Code); arpping.catchARPReply/Ping and server.arpVerify as translated equal the model's catchARPReply (first frame whose first 28 bytes decode with sender address = target) and arpVerify over at most three pings (C08Code)."
                  " The packet handlers (handleMsg, handleDiscover, handleRequest, sendMsg, sendNACK, getDuid) as translated from the source on every run, executed over the model's database steps and handler oracle, end in exactly the database and frame of the model's handle (C04Code).",
         "props": ["C08", "C13Code", "C11Code", "C08Code", "C04Code"],
-        "streams": [{"test": "TestArp", "names": ["arp"], "timeout": 300}, {"test": "TestSrvSeq", "names": ["srvseq"], "timeout": 300}],
+        "streams": [{"test": "TestArp", "names": ["arp"], "timeout": 300}, {"test": "TestSrvSeq", "names": ["srvseq"], "timeout": 300},
+                    {"test": "TestRsocksReal", "names": ["rsocksreal"], "timeout": 120}],
         "rule": "Ping against 0-4 injected frames (valid answers, wrong sender address, requests, short, padded to 46 bytes, random); restart scripts: 1-4 "
                 "hosts lease, the server is rebuilt empty, the holders answer ARP, 1-3 newcomers DISCOVER (half of them asking for an address in use); "
                 "plus responders (foreign / the client's own MAC / wrong sender address, delays 1-150 ms) on half of the C01 scripts",
@@ -277,7 +278,7 @@ PROPS = {
                  " (*tmpl).request of lib/client/msgtmpl as translated from the source on every run equals clientRequest, the math/rand draw being a parameter (C16Code)."
                  " sendMessage/sendSocket as translated from the source on every run: the waits between transmissions are the model's delay sequence for every random stream, every transmission writes the template's frame, the socket is the unicast one to the server's ARP answer or the broadcast one (C16CodeSend).",
         "props": ["C16", "C13Code", "C16Code", "C16CodeSend"],
-        "streams": [{"test": "TestCliTmpl", "names": ["clitmpl"], "timeout": 600}],
+        "streams": [{"test": "TestCliTmpl", "names": ["clitmpl"], "timeout": 600}, {"test": "TestCliAuto", "names": ["cliauto"], "timeout": 300}],
         "rule": "random hardware addresses (1..16 bytes), offered/server addresses incl. 0.0.0.0 and broadcast, all four states, two transmissions per "
                 "exchange; real sendMessage runs of 10 s .. 45 min virtual time whose inter-frame gaps are checked against the model's admissible "
                 "successor (prev <= next <= 2*prev below the barrier); non-trivial = every case",
@@ -305,8 +306,9 @@ PROPS = {
                  "identically for the concrete store (start_refines) — Lean theorems over all raw configurations; correspondence: the real server.New on "
                  "valid configurations and on 29 kinds of injected faults (alone and in pairs), the started servers then answering a DISCOVER per client."
                  " server.New and leaseopts.ParseConfig/SetClientOverrides/representable/ipv4 as translated from the source on every run (standard-library parsers uninterpreted) start exactly when the model's newServer does, never panic, and on success have built the model's lease database and a server value carrying the model's handler configuration (C18Code.code_new).",
-        "props": ["C18", "C18Code"],
-        "streams": [{"test": "TestCfgNew", "names": ["cfgnew"], "timeout": 300}, {"test": "TestCfgOptions", "names": ["cfgopts"], "timeout": 300}],
+        "props": ["C18", "C18Code", "C04Code"],
+        "streams": [{"test": "TestCfgNew", "names": ["cfgnew"], "timeout": 300}, {"test": "TestCfgOptions", "names": ["cfgopts"], "timeout": 300},
+                    {"test": "TestSrvSeq", "names": ["srvseq"], "timeout": 300}],
         "rule": "random valid configurations (prefix, range position, 0-2 client entries, three MAC spellings, 63 DNS servers / 255-byte domain boundary) with "
                 "0, 1 or 2 faults from {network, lease, lease<1 min, router, dns, ntp, empty string inside a list, >63 dns/ntp, >255-byte domain, lease > "
                 "2^32-1 s, range format / address / reversed / outside, own address outside / absent, per-client MAC / ip / router / dns / ntp / >63 dns / "
